@@ -23,6 +23,8 @@ type obs struct {
 	hasWin                     bool
 	s, e                       int64 // executed window in unix seconds (as logged / returned)
 	rows                       []destRow
+	reportedRows               int64 // records_written reported by the execution (-1 = none)
+	writeOK, writeRejected     int   // destination writes of executeAggregation accepted / rejected during the op
 	lpBefore, lpAfter          string
 	recBefore, recAfter        []execRec
 }
@@ -68,6 +70,19 @@ func (m *monitor) observe(op string, ob obs) {
 	// --- "a failed execution does not advance the window"
 	if ob.status != "completed" && ob.lpAfter != ob.lpBefore {
 		fail("failed-exec-advanced-cursor:"+ob.kind, fmt.Sprintf("%s execution with status %s moved last_processed_time %s -> %s", ob.kind, ob.status, ob.lpBefore, ob.lpAfter))
+	}
+	// --- a rejected destination write is a failed execution, whatever the code reported
+	if ob.writeRejected > 0 && ob.writeOK == 0 {
+		if ob.lpAfter != ob.lpBefore {
+			fail("failed-exec-advanced-cursor:"+ob.kind, fmt.Sprintf("%s execution whose destination write was rejected (%d attempt(s), none accepted; reported status %s) moved last_processed_time %s -> %s", ob.kind, ob.writeRejected, ob.status, ob.lpBefore, ob.lpAfter))
+		}
+		if reportedOK(ob.status) {
+			fail("write-rejected-exec-reported-completed:"+ob.kind, fmt.Sprintf("%s execution reported %s although the destination write of its rows was rejected", ob.kind, ob.status))
+		}
+	}
+	// --- the rows a successful execution reports as written must really be in the destination measurement
+	if reportedOK(ob.status) && ob.reportedRows != int64(len(ob.rows)) {
+		fail("completed-exec-rows-not-in-storage:"+ob.kind, fmt.Sprintf("%s execution reported %s with records_written=%d for window [%d,%d) but %d new rows reached the destination measurement", ob.kind, ob.status, ob.reportedRows, ob.s, ob.e, len(ob.rows)))
 	}
 	if ob.status == "completed" {
 		// (only for executions that ran from the cursor: whether an explicit-range manual execution
